@@ -93,6 +93,15 @@ Theorem C09_variadic_len_is_per_call :
 Proof. split; [exact (proj2 variadic_len_always)|]. intros. apply reg_history_independent. exact (proj1 variadic_len_always). Qed.
 Print Assumptions C09_variadic_len_is_per_call.
 
+(* the per-match fields a filter or a Do() function reads -- the captures of the current match, the report and suggestion
+   strings of Do(), the variable a custom filter is applied to: in every sequence of evaluations each one reads the value
+   of ITS OWN match (handleMatch / makeCustomVarFilter, read this run, store it in front of every evaluation) *)
+Theorem C09_per_match_fields_are_own :
+  forall f, In f per_match_fields ->
+  forall (A : Type) (leftover : A) (h : list (A * bool)), reg_history A (per_match_policy f) leftover h = map fst h.
+Proof. intros f Hf A leftover h. apply reg_history_independent. exact (per_match_always_In f Hf). Qed.
+Print Assumptions C09_per_match_fields_are_own.
+
 (* ---- non-vacuity ---- *)
 (* a store that is skipped for some evaluations (no captures / same operand as the last store) leaks *)
 Example c09_conditional_store_leaks :
